@@ -446,6 +446,17 @@ Proof.
   eapply Permutation_NoDup in H; [|exact P]. now apply NoDup_app_r in H.
 Qed.
 
+Lemma NoDup_app_l {B} (a b : list B) : NoDup (a ++ b) -> NoDup a.
+Proof.
+  induction a as [|x a IH]; cbn; intros H; [constructor|]. inversion H as [|? ? Hx Hn]; subst. constructor; [|auto].
+  intros Hc. apply Hx. apply in_or_app. now left.
+Qed.
+Lemma NoDup_app_disjoint {B} (a b : list B) : NoDup (a ++ b) -> forall x, In x a -> In x b -> False.
+Proof.
+  induction a as [|y a IH]; cbn; intros H x Ha Hb; [destruct Ha|]. inversion H as [|? ? Hy Hn]; subst.
+  destruct Ha as [->|Ha]; [apply Hy, in_or_app; now right|eauto].
+Qed.
+
 Definition jid (j : option (nat * nat)) : list nat := match j with Some (x, _) => [x] | None => [] end.
 
 Lemma scalars_scan_spec : forall nodes sc j,
@@ -514,3 +525,89 @@ Proof.
   - apply Hincl. now left.
   - intros x Hx. apply Hincl. now right.
 Qed.
+
+(* ------------------------------------------------------------------ *)
+(* simplify_hadamard                                                    *)
+Lemma list_eqb_nat_eq : forall a b : list nat, list_eqb Nat.eqb a b = true -> a = b.
+Proof.
+  induction a as [|x a IH]; intros [|y b] H; cbn in H; try discriminate; [reflexivity|].
+  apply andb_prop in H as [H1 H2]. apply Nat.eqb_eq in H1. f_equal; auto.
+Qed.
+
+Lemma hadamard_group_good : forall fuel grp c, Good c -> NoDup grp -> (forall x, In x grp -> In x (keys c)) ->
+  Good (hadamard_group fuel grp c) /\
+  forall x, In x (keys c) -> ~ In x grp -> In x (keys (hadamard_group fuel grp c)).
+Proof.
+  induction fuel as [|f IH]; intros grp c G ND Hin; cbn [hadamard_group]; [split; [assumption|auto]|].
+  destruct (rev grp) as [|i [|j rest]] eqn:Er; [split; [assumption|auto]|split; [assumption|auto]|].
+  assert (Eg : grp = rev rest ++ [j; i]).
+  { rewrite <- (rev_involutive grp), Er. cbn. now rewrite <- app_assoc. }
+  assert (NDr : NoDup (rev rest ++ [j; i])) by now rewrite <- Eg.
+  assert (Hi : In i (keys c)) by (apply Hin; rewrite Eg; apply in_or_app; right; right; now left).
+  assert (Hj : In j (keys c)) by (apply Hin; rewrite Eg; apply in_or_app; right; now left).
+  assert (Hij : i <> j).
+  { apply NoDup_app_r in NDr. inversion NDr as [|? ? Hn _]; subst. intros ->. apply Hn. now left. }
+  destruct (contract_nodes_good i j None c G Hi Hj Hij) as (G1 & Hk & Hs1 & Hr & _).
+  destruct (contract_nodes i j None c) as [c1 k] eqn:E. cbn [fst snd] in *. subst k.
+  assert (Hrest : forall x, In x (rev rest) -> In x (keys c) /\ x <> i /\ x <> j).
+  { intros x Hx. split; [apply Hin; rewrite Eg; apply in_or_app; now left|].
+    split; intros ->; eapply (NoDup_app_disjoint (rev rest) [j; i]); try exact NDr; try exact Hx; cbn; auto. }
+  destruct (IH (rev rest ++ [cp_ssa c]) c1 G1) as (G2 & Hp).
+  - apply NoDup_app_intro; [now apply NoDup_app_l in NDr|repeat constructor; intros []|].
+    intros x Hx [<-|[]]. apply Hrest in Hx as [Hx _]. apply G in Hx. lia.
+  - intros x Hx. rewrite Hk. apply in_app_or in Hx as [Hx|[<-|[]]]; apply in_or_app; [left|right; now left].
+    destruct (Hrest x Hx) as (H1 & H2 & H3). apply remove_all_in. split; [assumption|]. intros [->|[->|[]]]; congruence.
+  - split; [exact G2|]. intros x Hx Hng. apply Hp.
+    + rewrite Hk. apply in_or_app. left. apply remove_all_in. split; [assumption|].
+      intros [->|[->|[]]]; apply Hng; rewrite Eg; apply in_or_app; right; cbn; auto.
+    + intros Hc. apply in_app_or in Hc as [Hc|[<-|[]]].
+      * apply Hng. rewrite Eg. apply in_or_app. now left.
+      * apply G in Hx. lia.
+Qed.
+
+Definition hgrp (nodes0 : list (nat * clegs)) (key : list nat) : list nat :=
+  map fst (filter (fun il => list_eqb Nat.eqb (keyset (snd il)) key) nodes0).
+
+Lemma hgrp_in nodes0 key x : In x (hgrp nodes0 key) -> exists lg, In (x, lg) nodes0 /\ keyset lg = key.
+Proof.
+  unfold hgrp. intros H. apply in_map_iff in H as ([a lg] & <- & Hp). apply filter_In in Hp as [Hp He].
+  exists lg. split; [assumption|]. now apply list_eqb_nat_eq.
+Qed.
+
+Lemma hadamard_fold_good nodes0 : NoDup (map fst nodes0) -> forall order c, Good c -> NoDup order ->
+  (forall key x, In key order -> In x (hgrp nodes0 key) -> In x (keys c)) ->
+  Good (fold_left (fun c' key =>
+                     let grp := map fst (filter (fun il => list_eqb Nat.eqb (keyset (snd il)) key) nodes0) in
+                     if Nat.ltb 1 (length grp) then hadamard_group (length grp) grp c' else c') order c).
+Proof.
+  intros ND0. induction order as [|K order IH]; intros c G ND Hin; cbn [fold_left]; [assumption|].
+  inversion ND as [|? ? HK ND']; subst. fold (hgrp nodes0 K).
+  destruct (Nat.ltb 1 (length (hgrp nodes0 K))).
+  - destruct (hadamard_group_good (length (hgrp nodes0 K)) (hgrp nodes0 K) c G) as (G2 & Hp).
+    + unfold hgrp. now apply NoDup_map_fst_filter.
+    + intros x Hx. apply (Hin K x); [now left|assumption].
+    + apply IH; [exact G2|assumption|]. intros key x Hkey Hx. apply Hp; [apply (Hin key x); [now right|assumption]|].
+      intros Hc. apply hgrp_in in Hx as (lg1 & H1 & E1). apply hgrp_in in Hc as (lg2 & H2 & E2).
+      apply (in_nget _ _ _ ND0) in H1. apply (in_nget _ _ _ ND0) in H2. rewrite H1 in H2. injection H2 as ->.
+      apply HK. congruence.
+  - apply IH; [assumption|assumption|]. intros key x Hkey Hx. apply (Hin key x); [now right|assumption].
+Qed.
+
+Lemma simplify_hadamard_good order c : Good c -> NoDup order -> Good (simplify_hadamard order c).
+Proof.
+  intros G ND. unfold simplify_hadamard. apply hadamard_fold_good; [apply G|assumption|assumption|].
+  intros key x _ Hx. apply hgrp_in in Hx as (lg & H & _). unfold keys. apply in_map_iff. exists (x, lg). auto.
+Qed.
+
+Lemma simplify_loop_good : forall orders c, Good c -> Forall (fun o => NoDup o) orders -> Good (simplify_loop orders c).
+Proof.
+  induction orders as [|o orders IH]; intros c G F; cbn [simplify_loop].
+  - now apply simplify_scalars_good, simplify_single_terms_good.
+  - inversion F as [|? ? Ho F']; subst.
+    assert (G1 : Good (simplify_scalars (simplify_single_terms c))) by now apply simplify_scalars_good, simplify_single_terms_good.
+    assert (G2 : Good (simplify_hadamard o (simplify_scalars (simplify_single_terms c)))) by now apply simplify_hadamard_good.
+    destruct (Nat.eqb _ _); [exact G2|now apply IH].
+Qed.
+
+Lemma cp_simplify_good orders c : Good c -> Forall (fun o => NoDup o) orders -> Good (cp_simplify orders c).
+Proof. intros G F. unfold cp_simplify. apply simplify_loop_good; [now apply simplify_batch_good|assumption]. Qed.
